@@ -15,6 +15,9 @@ var compsPool = []string{"-", "1", "1,2", "1,2,3", "4"}
 var invPool = []string{"-", "1", "2", "1,2", "1,3", "2,1"}
 var prioPool = []int{0, -7, 13, 50, 123}
 
+// stickiness limits in seconds (C04); the clock moves in multiples of 8 s
+var stickPool = []int{20, 60, 150, 400, 1000}
+
 type queueSpec struct {
 	comps string
 	plat  int
@@ -23,6 +26,7 @@ type queueSpec struct {
 
 // gen produces the next abstract op given what the implementation currently holds.
 type generator struct {
+	focus   bool // fairness-focused history (C04): one queue with two stickiness levels, few workers, nested invocations under common top-level keys, many uncacheable tasks, small clock steps
 	rng     *hx.Rand
 	queues  []queueSpec // predeclared + worker-created candidates
 	nextC   int
@@ -31,6 +35,17 @@ type generator struct {
 }
 
 func (g *generator) dt() int {
+	if g.focus {
+		switch g.rng.Pick(40, 45, 12, 3) {
+		case 0:
+			return 0
+		case 1:
+			return 1 + g.rng.Intn(3)
+		case 2:
+			return 4 + g.rng.Intn(8)
+		}
+		return 20 + g.rng.Intn(40)
+	}
 	switch g.rng.Pick(45, 35, 12, 8) {
 	case 0:
 		return 0
@@ -47,10 +62,71 @@ func (g *generator) answers() string {
 	if g.rng.Chance(1, 2) {
 		bg = strconv.Itoa(g.rng.Intn(3))
 	}
-	return fmt.Sprintf("sel=%d bg=%s retry=%s", g.rng.Intn(3), bg, b01(g.rng.Chance(1, 2)))
+	return fmt.Sprintf("sel=%d bg=%s retry=%s dur=%d", g.rng.Intn(3), bg, b01(g.rng.Chance(1, 2)), g.rng.Intn(4))
+}
+
+var focusInvPool = []string{"1,2", "1,3", "1,2", "1,3", "2,1", "2,2", "1"}
+var focusStickPool = []int{20, 44, 60, 100, 150}
+
+func (g *generator) setupFocus() []string {
+	q := queueSpec{comps: compsPool[g.rng.Intn(len(compsPool))], plat: g.rng.Intn(2), sizes: []int{0}}
+	if g.rng.Chance(1, 4) {
+		q.sizes = []int{1, 4}
+	}
+	g.queues = append(g.queues, q)
+	stick := []int{focusStickPool[g.rng.Intn(len(focusStickPool))], focusStickPool[g.rng.Intn(len(focusStickPool))]}
+	if g.rng.Chance(1, 5) {
+		stick = stick[:1]
+	}
+	return []string{fmt.Sprintf("0 regpq %s %d %s %d %d stick=%s", q.comps, q.plat, intsStr(q.sizes), g.rng.Pick(2, 3, 2), prioPool[g.rng.Intn(len(prioPool))], intsStr(stick))}
+}
+
+func (g *generator) nextFocus(r *run, dt int, workerTask, taskDigest map[string]string) (string, bool) {
+	w := r.w
+	q := g.queues[0]
+	switch g.rng.Pick(40, 52, 8) {
+	case 0: // Execute: mostly uncacheable actions (every request is a task of its own), mostly one priority
+		g.nextC++
+		d := 4 + q.plat
+		if g.rng.Chance(1, 4) {
+			d = 2*g.rng.Intn(3) + q.plat
+		}
+		prio := 0
+		if g.rng.Chance(1, 5) {
+			prio = prioPool[g.rng.Intn(len(prioPool))]
+		}
+		sel := 0
+		if len(q.sizes) > 1 {
+			sel = g.rng.Intn(2)
+		}
+		return fmt.Sprintf("%d exec %d %d %s %s %d sel=%d bg=- retry=0 dur=%d", dt, g.nextC, d, q.comps,
+			focusInvPool[g.rng.Intn(len(focusInvPool))], prio, sel, g.rng.Intn(4)), true
+	case 1: // Synchronize of one of three workers: report completion of what it runs, else ask for work
+		sc := q.sizes[len(q.sizes)-1]
+		if g.rng.Chance(1, 6) {
+			sc = q.sizes[0]
+		}
+		h := g.rng.Intn(3)
+		key := fmt.Sprintf("%d/%d/%d.0", w.pqID(ints(q.comps), q.plat), sc, h)
+		report := "i"
+		if task, ok := workerTask[key]; ok && task != "-" {
+			switch g.rng.Pick(80, 15, 5) {
+			case 0:
+				g.nextTok++
+				report = fmt.Sprintf("c:%s:0:0:%d", taskDigest[task], g.nextTok)
+			case 1:
+				report = "e:" + taskDigest[task]
+			}
+		}
+		return fmt.Sprintf("%d sync %s %d %d %d.0 %s 0 sel=0 bg=- retry=0", dt, q.comps, q.plat, sc, h, report), true
+	}
+	return "", false
 }
 
 func (g *generator) setup() []string {
+	if g.focus {
+		return g.setupFocus()
+	}
 	var lines []string
 	n := 1 + g.rng.Intn(3)
 	used := map[string]bool{}
@@ -70,7 +146,12 @@ func (g *generator) setup() []string {
 			q.sizes = []int{1, 2, 8}
 		}
 		g.queues = append(g.queues, q)
-		lines = append(lines, fmt.Sprintf("0 regpq %s %d %s %d %d", q.comps, q.plat, intsStr(q.sizes), g.rng.Pick(2, 3, 2), prioPool[g.rng.Intn(len(prioPool))]))
+		// worker invocation stickiness limits: lists of length 0-2 (seconds; clock steps are multiples of 8)
+		var stick []int
+		for n := g.rng.Pick(3, 3, 4); n > 0; n-- {
+			stick = append(stick, stickPool[g.rng.Intn(len(stickPool))])
+		}
+		lines = append(lines, fmt.Sprintf("0 regpq %s %d %s %d %d stick=%s", q.comps, q.plat, intsStr(q.sizes), g.rng.Pick(2, 3, 2), prioPool[g.rng.Intn(len(prioPool))], intsStr(stick)))
 	}
 	// candidates for worker-created queues
 	for i := 0; i < 2; i++ {
@@ -132,6 +213,11 @@ func (g *generator) next(r *run) string {
 	sort.Strings(parkedClients)
 	sort.Strings(blockedSyncs)
 	sort.Strings(blockedTerms)
+	if g.focus {
+		if l, ok := g.nextFocus(r, dt, workerTask, taskDigest); ok {
+			return l
+		}
+	}
 
 	switch g.rng.Pick(26, 44, 5, 6, 3, 3, 2, 3, 3, 1, 1, 3) {
 	case 0: // Execute
@@ -238,11 +324,11 @@ func (g *generator) next(r *run) string {
 		if len(opNames) > 0 && g.rng.Chance(5, 6) {
 			name = opNames[g.rng.Intn(len(opNames))]
 		}
-		code := []int{1, 2, 8, 0}[g.rng.Pick(5, 3, 2, 1)]
+		code := []int{10, 2, 8, 0}[g.rng.Pick(5, 3, 2, 1)]
 		return fmt.Sprintf("%d killop %s %d %s", dt, name, code, g.answers())
 	case 6: // kill a queue without workers
 		q, sc := g.pickQueue()
-		return fmt.Sprintf("%d killq %s %d %d %d %s", dt, q.comps, q.plat, sc, []int{1, 10}[g.rng.Intn(2)], g.answers())
+		return fmt.Sprintf("%d killq %s %d %d %d %s", dt, q.comps, q.plat, sc, []int{2, 10}[g.rng.Intn(2)], g.answers())
 	case 7: // add drain
 		q, sc := g.pickQueue()
 		return fmt.Sprintf("%d drain+ %s %d %d %s", dt, q.comps, q.plat, sc, g.pattern())
@@ -282,7 +368,15 @@ func propertyOfMismatch(prop string) string {
 
 func TestHarness(t *testing.T) {
 	o := hx.ParseFlags()
-	res := hx.NewResult("sched", o, "random segment histories of Execute/WaitExecution/Synchronize/KillOperations/AddDrain/RemoveDrain/TerminateWorkers/cancellations/clock jumps against the real InMemoryBuildQueue (1-3 predeclared queues with 1-3 size classes, worker-created queues, nested instance name prefixes, <=6 workers, 4 digests, invocation depth <=2), followed by a quiescence phase; non-trivial = a task was handed to a parked worker, a task was taken from a queue, a worker-supplied result reached a client, and a deduplication or size-class retry happened; distinct = hash of the op list")
+	if err := fairStart(); err != nil {
+		t.Fatalf("cannot start model driver: %v", err)
+	}
+	defer fairStop()
+	nontrivialRule := "a task was handed to a parked worker, a task was taken from a queue, a worker-supplied result reached a client, and a deduplication or size-class retry happened"
+	if o.Prop == "C04" {
+		nontrivialRule = "a queue pick was judged against the documented fair order (drv_fair) whose walk passed an invocation with at least two candidates (queued operations or queued children)"
+	}
+	res := hx.NewResult("sched", o, "random segment histories of Execute/WaitExecution/Synchronize/KillOperations/AddDrain/RemoveDrain/TerminateWorkers/cancellations/clock jumps against the real InMemoryBuildQueue (1-3 predeclared queues with 1-3 size classes, worker-created queues, nested instance name prefixes, <=6 workers, 4 digests, invocation depth <=2, stickiness limit lists of length 0-2, 4 expected-duration classes), followed by a quiescence phase; non-trivial = "+nontrivialRule+"; distinct = hash of the op list")
 	drv, err := hx.StartDriver("sched")
 	if err != nil {
 		t.Fatalf("cannot start model driver: %v", err)
@@ -313,11 +407,11 @@ func TestHarness(t *testing.T) {
 
 	// search: after a model/implementation disagreement, look for a concrete history on
 	// which the implementation itself violates a property (monitors only, no model).
-	search := func(prefix []string, qs []queueSpec, seed uint64) ([]string, *failure) {
+	search := func(prefix []string, qs []queueSpec, seed uint64, only string) ([]string, *failure) {
 		for try := 0; try < 40; try++ {
 			g := &generator{rng: hx.NewRand(seed*1000 + uint64(try)), queues: qs, nextC: 1000, nextK: 1000, nextTok: 1000}
 			lines := append([]string(nil), prefix...)
-			r := &run{drv: drv, noModel: true, prev: map[string]string{}, flags: map[string]bool{}, streams: map[int]*streamMon{}, doneTask: map[int]string{}}
+			r := &run{drv: drv, noModel: true, onlyProp: only, prev: map[string]string{}, flags: map[string]bool{}, streams: map[int]*streamMon{}, doneTask: map[int]string{}}
 			synctest_run(t, r, func() {
 				for _, l := range lines {
 					r.apply(l)
@@ -338,12 +432,17 @@ func TestHarness(t *testing.T) {
 		return nil, nil
 	}
 	reportWithSearch := func(lines []string, qs []queueSpec, f *failure, seed uint64) {
-		if f.kind == "mismatch" {
-			if vl, vf := search(lines, qs, seed); vf != nil {
+		other := f.kind == "violation" && o.Prop != "" && f.prop != "" && f.prop != o.Prop
+		if f.kind == "mismatch" || other {
+			only := ""
+			if other {
+				only = o.Prop
+			}
+			if vl, vf := search(lines, qs, seed, only); vf != nil {
 				res.Count("mismatch-turned-into-failing-input")
 				// shrink in monitor-only mode
 				fails := func(cand []string) bool {
-					r := &run{drv: drv, noModel: true, prev: map[string]string{}, flags: map[string]bool{}, streams: map[int]*streamMon{}, doneTask: map[int]string{}}
+					r := &run{drv: drv, noModel: true, onlyProp: only, prev: map[string]string{}, flags: map[string]bool{}, streams: map[int]*streamMon{}, doneTask: map[int]string{}}
 					synctest_run(t, r, func() {
 						for _, l := range cand {
 							if r.fail == nil {
@@ -380,8 +479,12 @@ func TestHarness(t *testing.T) {
 			report(f.History, r.fail)
 		}
 		res.ModelLines = drv.Lines
+		fairFinish(res)
 		res.Write(o)
 		return
+	}
+	if o.Prop == "C04" || o.Prop == "" {
+		fairSweep(res)
 	}
 
 	histories := 120 * o.Scale
@@ -391,6 +494,12 @@ func TestHarness(t *testing.T) {
 	rng := hx.NewRand(o.Seed)
 	for h := 0; h < histories && len(res.Findings) == 0; h++ {
 		g := &generator{rng: rng}
+		// a share of the histories concentrates on hand-out decisions (C04)
+		if o.Prop == "C04" {
+			g.focus = rng.Chance(1, 2)
+		} else {
+			g.focus = rng.Chance(1, 6)
+		}
 		lines := g.setup()
 		n := 30 + rng.Intn(170)
 		r := &run{drv: drv, prev: map[string]string{}, flags: map[string]bool{}, streams: map[int]*streamMon{}, doneTask: map[int]string{}}
@@ -407,6 +516,7 @@ func TestHarness(t *testing.T) {
 				r.quiesce()
 			}
 		})
+		r.finish()
 		res.Evaluations += r.steps
 		res.TracesVsImpl++
 		if r.tie {
@@ -419,11 +529,19 @@ func TestHarness(t *testing.T) {
 		for k := range r.flags {
 			res.Count("history-with-" + k)
 		}
-		res.History(lines, r.flags["handoff"] && r.flags["queue-pick"] && r.flags["worker-result"] && (r.flags["dedup"] || r.flags["retry"]))
+		if g.focus {
+			res.Count("history-fairness-focused")
+		}
+		if o.Prop == "C04" {
+			res.History(lines, r.flags["fair-multi"])
+		} else {
+			res.History(lines, r.flags["handoff"] && r.flags["queue-pick"] && r.flags["worker-result"] && (r.flags["dedup"] || r.flags["retry"]))
+		}
 		if r.fail != nil {
-			reportWithSearch(lines, g.queues, r.fail, o.Seed)
+			reportWithSearch(lines, g.queues, r.fail, o.Seed, g.focus)
 		}
 	}
 	res.ModelLines = drv.Lines
+	fairFinish(res)
 	res.Write(o)
 }
